@@ -116,6 +116,11 @@ func c16Script(ctx *core.Ctx, idx int) core.Result {
 		raw = append(raw, []string{"zq = \"abc\\\n\"", "write(\"x\\\n\\\n\" + \"|\")", "zq = \"l1\\\\\\\n\" + \"t\"", "write(\"a\\\n\\\\\")"}[r.Intn(4)])
 		raw = append(raw, "write(\"<m>\")", "write(\"<n>\")")
 	}
+	// a script that ends, without a final line break, in a line of a single character (the closing brace of a block)
+	endsInBrace := r.Chance(1, 5)
+	if endsInBrace {
+		raw = append(raw, []string{"{\n write(\"<end>\")\n 0\n}", "if true {\n write(\"<end>\")\n}", "zlast = (q) -> {\n q + 1\n}", "for zl <- fromto(0, 2) {\n write(zl)\n}"}[r.Intn(4)])
+	}
 	// reference
 	ref := rs.New()
 	want := make([]rs.Result, len(stmts))
@@ -146,7 +151,7 @@ func c16Script(ctx *core.Ctx, idx int) core.Result {
 			script.WriteString("; a comment line { [ \"\n")
 		}
 		script.WriteString(t)
-		if i < len(texts)-1 || r.Bool() {
+		if i < len(texts)-1 || (r.Bool() && !endsInBrace) {
 			script.WriteString("\n")
 		}
 	}
